@@ -40,6 +40,7 @@ TRANSPARENT = {
     "core::future::into_future::IntoFuture::into_future": 0,
     "core::iter::traits::collect::IntoIterator::into_iter": 0,
     "core::convert::identity": 0,
+    "bytes::bytes_mut::BytesMut::freeze": 0,
     # Hyphenated's Display prints exactly what Uuid's Display prints (uuid crate: Display for Uuid delegates to it);
     # the other adapters (simple / urn / braced) are different texts and are NOT transparent
     "uuid::fmt::<impl uuid::Uuid>::hyphenated": 0,
@@ -48,6 +49,7 @@ TRANSPARENT = {
     "anyhow::__private::must_use": 0,
 }
 
+BYTE_CONTAINERS = {"bytes::bytes_mut::BytesMut", "bytes::bytes::Bytes", "alloc::vec::Vec<u8>"}
 NOT_CALLEES = {"anyhow::__private::not", "core::ops::bit::Not::not"}
 
 # adapters that preserve the success payload: ok(adapter(x, ..)) == ok(x)
@@ -164,6 +166,16 @@ class Prov:
                         and not node["rv"]["op"]["p"]["proj"]:
                     # a copy of another local of the same shape (the value of an `if let .. else ..` expression)
                     src = node["rv"]["op"]["p"]["l"]
+                    hops = 0
+                    while src not in self.phi_locals and len(self.defsites.get(src, [])) == 1 and hops < 6 and not (1 <= src <= self.body.arg_count):
+                        # a chain of plain moves down to the local that carries the value
+                        n3 = self.node_at(self.defsites[src][0])
+                        if self.defsites[src][0][1] != "T" and n3["rv"]["k"] == "use" and n3["rv"]["op"]["k"] in ("copy", "move") \
+                                and not n3["rv"]["op"]["p"]["proj"]:
+                            src = n3["rv"]["op"]["p"]["l"]
+                            hops += 1
+                        else:
+                            break
                     sub = self.sum_summary(src) if src in self.phi_locals else None
                     if sub is None and src not in self.phi_locals and len(self.defsites.get(src, [])) == 1:
                         n2 = self.node_at(self.defsites[src][0])
@@ -239,6 +251,11 @@ class Prov:
         args = tuple(self.operand_term(a) for a in node["args"])
         if callee in self.transparent and len(args) > self.transparent[callee]:
             return args[self.transparent[callee]]
+        if callee in ("core::convert::From::from", "core::convert::Into::into") and len(args) == 1 and node["args"][0]["k"] != "const":
+            # conversions between byte containers carry the same bytes (BytesMut / Bytes / Vec<u8>)
+            st = node["args"][0]["p"]["ty"].lstrip("&").replace("mut ", "", 1)
+            if st in BYTE_CONTAINERS and node["dest"]["ty"] in BYTE_CONTAINERS:
+                return args[0]
         if callee == "alloc::fmt::format" and len(args) == 1:
             # format!("{}", x) is x.to_string(): the template bytes [0xC0, 0] are "one argument, default formatting, end"
             a = args[0]
